@@ -582,6 +582,7 @@ type lCase struct {
 	Inject   []injDesc `json:"inject"`
 	Tree     bool      `json:"tree"`
 	Twice    bool      `json:"twice"`    // execute the rule set twice on the same builder/engine (C15)
+	Inject2  []injDesc `json:"inject2"`  // with Reinject: the objects of the second execution (default: fresh copies of Inject)
 	Reinject bool      `json:"reinject"` // then inject FRESH objects under the same names into the same data context and execute again (C03)
 	Hold     string    `json:"hold"`     // Hold("<name>") blocks until the adversary releases it (C18)
 	Model    string    `json:"model"`    // "" = sort model; "concurrent" = ExecuteConcurrent (C15: overlapping executions of several rules)
@@ -727,7 +728,11 @@ func runLangCase(c *lCase) lObs {
 	if c.Reinject {
 		second := lObs{ID: c.ID, Cites: [][2]int{}, Results: map[string]tval{}, Calls: []callRec{}, Store: []injDump{}}
 		var fresh []*built
-		for _, d := range c.Inject {
+		second2 := c.Inject
+		if len(c.Inject2) > 0 {
+			second2 = c.Inject2
+		}
+		for _, d := range second2 {
 			b, err := buildInj(d, rec)
 			if err != nil {
 				second.Compile = "inject: " + err.Error()
